@@ -198,6 +198,8 @@ def phase_sendrecv(args):
             if got != want:
                 return dict(phase="sendrecv", states=0, transitions=0, viols=[("sequence", "id", f"positioning: {got} != {want}", None)], nviols=1)
         letters = [("send", P1), ("send", None)] + [("recv", mc, flag, sid) for mc in (False, True) for flag in (0, 1) for sid in (1, 2, 7)]
+        letters.append(("restart",))  # stop() and start() of the endpoint: the numbering of both directions goes on
+        started = [False]
 
         def snap():
             ss = prot.session_storage
@@ -235,6 +237,19 @@ def phase_sendrecv(args):
                             disc = "flag-after-receive" if got and got[0][2] == want[0][2] else "id-after-receive"
                             viols.append(("sequence", disc, f"send to {d} after receptions: got {got} want {want}", None))
                         pos = (np1 + (d == P1), nm + (d is None))
+                    elif letter[0] == "restart":
+                        n0 = len(prot.transport.sent)
+                        if started[0]:
+                            prot.stop()
+                            loop.settle()
+                        prot.start()
+                        started[0] = True
+                        loop.settle()
+                        del prot.transport.sent[n0:]
+                        transitions += 1
+                        if snap()[0] != st[0]:  # (what it does to the table of received ids is C07's business)
+                            viols.append(("lifecycle", "outgoing-numbering-changed", "stop() / start() of the endpoint changed "
+                                          f"the outgoing session table: {st[0]} -> {snap()[0]}", None))
                     else:
                         _, mc, flag, sid = letter
                         data = refcodec.sd_message(sid, [("find", 0x4242, 0xFFFF, 0xFF, 3, 0xFFFFFFFF, (), ())], reboot=bool(flag))
